@@ -18,6 +18,7 @@ def run(run, tier, seed):
                        "operators through MC_AlignSnp (shared ExpectedBag/CanonCol)"]
     d = vlib.design_check("MC_AlignSnp", "MC_AlignSnp_small", "c17-rel", workers=8, timeout=900)
     run.add_design(d)
+    replay_entries(run, tier, seed)
     events = lodrv.snp_events(run, tier, seed + 17, "c17")
     # scenarios where only the ancestor satisfies the uniqueness precondition are skipped by the trace
     # specification; classify them here (known finding K17 when the columns are wrong)
@@ -30,6 +31,58 @@ def run(run, tier, seed):
                 run.fail({"kind": "literal", "pre_literal": True, "pre_strict": False, "event": e},
                          "ancestor-only precondition holds, strict fails, and the SNP columns differ (k=%d)" % c["k"])
     finish(run, events, "c17", tier)
+
+
+def replay_entries(run, tier, seed):
+    """B for the first two stages of ska lo: MC_LoGraph's scenarios (graph construction + entry nodes, checked by
+    TLC against 'the (k-1)-mers flanking each variable site') are run through `ska build -k 5` + `ska lo`; the
+    hooked binary logs its entry nodes, which must be the model's."""
+    import random, concurrent.futures, skacli
+    from props.c11 import run_cmd
+    d = vlib.design_check("MC_LoGraph", "MC_LoGraph_quick" if tier == "quick" else "MC_LoGraph", "c17-graph", workers=8,
+                          timeout=3000, want_replay=True)
+    run.add_design(d)
+    behs = d["replay"]
+    rng = random.Random(seed)
+    rng.shuffle(behs)
+    behs = behs[:200 if tier == "quick" else 3000]
+    sb = skacli.Sandbox("c17g")
+
+    def one(args):
+        i, beh = args
+        sub = skacli.Sandbox("c17g%d" % i)
+        try:
+            sub.reset()
+            samples = [[bytes(x).decode()] for x in beh["samples"]]
+            e = sub.build("g", samples, ["g%d" % j for j in range(len(samples))], beh["k"], True)
+            if not e.get("ok"):
+                return {"ok": False, "why": "build failed"}
+            tr = os.path.join(sub.dir, "tr.ndjson")
+            rc, so, se, hook = run_cmd(["lo", sub.path("g"), os.path.join(sub.dir, "out")], tr)
+            ent = [h for h in hook if h["ev"] == "lo.entries"]
+            if len(ent) != 1:
+                return {"ok": False, "why": "no lo.entries event (rc=%d): %s" % (rc, se.decode(errors="replace")[-150:])}
+            got = sorted(vlib.digits(x) for x in ent[0]["entries"])
+            want = sorted(beh["entries"])
+            if got != want or ent[0]["nodes"] != beh["nodes"]:
+                return {"ok": False, "why": "entry nodes differ", "expected": [want, beh["nodes"]], "actual": [got, ent[0]["nodes"]]}
+            return {"ok": True}
+        finally:
+            sub.close()
+
+    try:
+        with concurrent.futures.ThreadPoolExecutor(max_workers=12) as ex:
+            res = list(ex.map(one, list(enumerate(behs))))
+    finally:
+        sb.close()
+    run.replayed += len(behs)
+    for beh, v in zip(behs, res):
+        if not v["ok"]:
+            run.fail({"kind": "replay", "behaviour": beh, "verdict": v}, "ska lo entry nodes diverge from LoGraph: %s" % v["why"])
+        else:
+            run.nontriv(["entries", beh["samples"]])
+    if behs:
+        run.sample({"replayed_behaviour": behs[0]})
 
 
 def finish(run, events, tag, tier):
